@@ -73,7 +73,12 @@ class VarExpr:
         if self.varname == "@name":
             return str(info.path.parent.name)
 
-        return info.tags.get(self.varname, None)
+        value = info.tags.get(self.varname, None)
+        if value is None or isinstance(value, str):
+            return value
+
+        # Tag values can be numbers: compare them through their text
+        return str(value)
 
     def __repr__(self):
         return f"""VAR<{self.varname}>"""
